@@ -43,6 +43,12 @@ Definition advance_all (p : pos) (s : list N) : pos := fold_left advance s p.
 (* raw token: kind, value, start position *)
 Record rtoken := { rt_kind : tkind; rt_value : str; rt_line : N; rt_col : N }.
 
+Section WithDigits.
+Variable ud : N -> bool.     (* the non-ASCII digits, see Chars.v *)
+Notation is_digit := (is_digit ud).
+Notation is_hex := (is_hex ud).
+Notation is_alnum := (is_alnum ud).
+
 (* ---- scanText (scanner.go:196-239) ---- *)
 
 (* characters the loop consumes after the first one *)
@@ -207,6 +213,8 @@ Fixpoint lex_fuel (fuel : nat) (inp : list N) (p start : pos) : option (list rto
 
 Definition lex (text : list N) : option (list rtoken) :=
   lex_fuel (S (length text)) text (1, 0) (1, 0).
+
+End WithDigits.
 
 (* parser.scan (parser.go:91-104): a space token is replaced by the next token (once) *)
 Definition is_space_tok (t : rtoken) : bool := tkind_eqb (rt_kind t) KSpace.
